@@ -61,7 +61,7 @@ def coq_build(targets=None, clean=False, remove=None):
             return False, out
         if clean:
             sh(["make", "clean"], cwd=COQ)
-        cmd = ["make", "-j16"] + (targets or [])
+        cmd = ["make", "-j16", "COQC=timeout 900 coqc"] + (targets or [])
         rc, out2 = sh(cmd, cwd=COQ, timeout=3000)
         return rc == 0, out + out2
 
